@@ -74,12 +74,36 @@ let run id =
       (String.concat "," (Stdlib.List.map (fun (a, _) -> hexb a) (files_of st)))
       (hexb (checksumText hs st))
   | "lk" ->
+    (* type id, names in registration order, then the registry map in some order *)
     let ty = next_int () in
     let n = next_int () in
+    let names = times n next_bytes in
     let r = times n (fun () -> let a = next_bytes () in let t = next_int () in (a, t)) in
-    (match lookup (fun t -> t = ty) r with
+    (match lookup (fun t -> t = ty) names r with
      | None -> Printf.printf "%s lk none\n" id
      | Some k -> Printf.printf "%s lk %s\n" id (hexb k))
+  | "ef" ->
+    (* files: name, locals defined, locals of other files referred to *)
+    let n = next_int () in
+    let files = times n (fun () ->
+      let name = next_bytes () in
+      let nd = next_int () in let defs = times nd next_bytes in
+      let nn = next_int () in let needs = times nn next_bytes in
+      (name, (defs, needs))) in
+    (match evalOptions_files files with
+     | None -> Printf.printf "%s ef error\n" id
+     | Some names -> Printf.printf "%s ef ok %s\n" id (String.concat "," (Stdlib.List.map hexb names)))
+  | "ra" ->
+    (* r.Attrs (name, value), r.Children (type, name), then existingAttrs and existingChildren keys in some order *)
+    let n = next_int () in
+    let attrs = times n (fun () -> let a = next_bytes () in let v = next_int () in (a, v)) in
+    let m = next_int () in
+    let children = times m (fun () -> let t = next_bytes () in let nm = next_bytes () in (t, nm)) in
+    let ea = times (next_int ()) next_bytes in
+    let ec = times (next_int ()) next_bytes in
+    Printf.printf "%s ra %s | %s\n" id
+      (String.concat "," (Stdlib.List.map (fun (a, v) -> hexb a ^ "=" ^ string_of_int v) (as_extra_attrs attrs ea [])))
+      (String.concat "," (Stdlib.List.map (fun (t, nm) -> hexb t ^ ":" ^ hexb nm) (as_extra_children fst children ec [])))
   | "ta" ->
     (* attributes of one HCL block: name, value (0 = null: omitted) *)
     let n = next_int () in
